@@ -41,8 +41,22 @@ pub fn depth_all(shape: &Shape, v: &Value) -> u32 {
 	}
 }
 
+/// Flat scalar element types: a vector-backed sequence of these holds no further structure the
+/// decoder would have to recurse into (today integers and floats are read in bulk; the lower bound
+/// deliberately exempts every flat scalar so that extending the bulk path is not an alarm).
 fn bulk_primitive(e: &Shape) -> bool {
-	matches!(e, Shape::UInt(_) | Shape::SInt(_) | Shape::F32 | Shape::F64)
+	matches!(
+		e,
+		Shape::UInt(_) |
+			Shape::SInt(_) | Shape::F32 |
+			Shape::F64 | Shape::Bool |
+			Shape::Unit | Shape::NonZeroU(_) |
+			Shape::NonZeroI(_) |
+			Shape::OptionBool |
+			Shape::Compact(_) |
+			Shape::CompactUnit |
+			Shape::Phantom
+	)
 }
 
 /// Lower bound of the limit a value needs: the number of nested heap containers the decoder must
